@@ -36,7 +36,7 @@ inductive Admits : Ty → PV → PV → Prop
       AdmitsF fs kvs items → (∀ k ∈ keysOf kvs, k ∈ fieldNames fs) →
       Admits (.struct name fs) (.dict kvs) (.inst name items)
   | structInst {name c : Str} {fs : List Field} {ifs items : List (Str × PV)} :
-      AdmitsF fs (asdictK ifs) items → (∀ k ∈ keysOf (asdictK ifs), k ∈ fieldNames fs) →
+      AdmitsF fs ifs items → (∀ k ∈ keysOf ifs, k ∈ fieldNames fs) →
       Admits (.struct name fs) (.inst c ifs) (.inst name items)
 /-- element-wise, one element type -/
 inductive AdmitsL : Ty → List PV → List PV → Prop
@@ -90,10 +90,10 @@ inductive Offends : Ty → PV → Path → CfgKind → Prop
   | unknown {name k : Str} {fs : List Field} {kvs : List (Str × PV)} :
       k ∈ keysOf kvs → k ∉ fieldNames fs → Offends (.struct name fs) (.dict kvs) [.field k] .unknown
   | missingInst {name c n : Str} {t : Ty} {fs : List Field} {ifs : List (Str × PV)} :
-      (n, t, Option.none) ∈ fs → assoc n (asdictK ifs) = .none →
+      (n, t, Option.none) ∈ fs → assoc n ifs = .none →
       Offends (.struct name fs) (.inst c ifs) [.field n] .missing
   | unknownInst {name c k : Str} {fs : List Field} {ifs : List (Str × PV)} :
-      k ∈ keysOf (asdictK ifs) → k ∉ fieldNames fs → Offends (.struct name fs) (.inst c ifs) [.field k] .unknown
+      k ∈ keysOf ifs → k ∉ fieldNames fs → Offends (.struct name fs) (.inst c ifs) [.field k] .unknown
   | opt {t : Ty} {j : PV} {r : Path} {k : CfgKind} : j ≠ .none → Offends t j r k → Offends (.opt t) j r k
   | list {t : Ty} {xs : List PV} {i : Nat} {x : PV} {r : Path} {k : CfgKind} :
       xs[i]? = some x → Offends t x r k → Offends (.list t) (.list xs) (.idx i :: r) k
@@ -113,7 +113,7 @@ inductive Offends : Ty → PV → Path → CfgKind → Prop
       (n, t, d) ∈ fs → assoc n kvs = some x → Offends t x r k →
       Offends (.struct name fs) (.dict kvs) (.field n :: r) k
   | fieldInst {name c n : Str} {t : Ty} {d : Option PV} {fs : List Field} {ifs : List (Str × PV)} {x : PV} {r : Path} {k : CfgKind} :
-      (n, t, d) ∈ fs → assoc n (asdictK ifs) = some x → Offends t x r k →
+      (n, t, d) ∈ fs → assoc n ifs = some x → Offends t x r k →
       Offends (.struct name fs) (.inst c ifs) (.field n :: r) k
 
 end QmiModel.Config
